@@ -806,6 +806,9 @@ CO_ERR COSdoInitUploadBlock(CO_SDO *srv)
     }
     if (err != CO_ERR_NONE) {
         srv->Node->Error = CO_ERR_SDO_READ;
+        srv->Blk.State   = BLK_IDLE;
+        COSdoAbort(srv, CO_SDO_ERR_HW_ACCESS);
+        return (CO_ERR_SDO_ABORT);
     }
     CO_SET_BYTE(srv->Frm, cmd, 0);
     CO_SET_LONG(srv->Frm, size, 4);
